@@ -1213,7 +1213,7 @@ class Interp:
                     if rc and rc[0] in ('vec', 'vec1', 'vec_len') and pn in vals and \
                             isinstance(vals[pn], (SV, int, Fraction)) and not isinstance(vals[pn], bool):
                         rr = getattr(c.returns, 'recipe', None) if c.returns is not None else None
-                        if c.trusted and c.pure and rr and rr[0] in ('vec', 'vec_len') and not c.ensures:
+                        if c.trusted and c.pure and rr and rr[0] in ('vec', 'vec_len'):
                             # an assumed pure per-element coefficient evaluated at one point: some real number
                             from .vals import fresh as _fresh
                             return SV(_fresh(qual.rsplit('.', 1)[-1] + '_at_point', z3.RealSort()))
